@@ -352,3 +352,45 @@ pub fn nap(ns: u64) {
         engine::sleep(ns);
     }
 }
+
+/// Spawn `n` fresh coroutines (they take over the pooled stacks / generators of coroutines that
+/// ended earlier in the run) whose first action is a socket read that has to wait for its data.
+/// Socket calls look at the coroutine's resume parameter unconditionally, so a result left behind
+/// by a previous user of the generator (a stale "Canceled" or "timeout") shows up as an error of a
+/// coroutine that was never cancelled and has no timeout. Switches the engine to polling the
+/// epoll fds from here on.
+pub fn fresh_coroutines_start_clean(n: u8) {
+    use std::io::{Read, Write};
+    engine::set_io_always(true);
+    let mut succ = Vec::new();
+    for k in 0..n {
+        let (a, mut b) = may::os::unix::net::UnixStream::pair().expect("pair");
+        let ready = Arc::new(AtomicBool::new(false));
+        let r2 = ready.clone();
+        let h = unsafe {
+            may::coroutine::spawn(move || {
+                let mut buf = [0u8; 4];
+                set_flag(&r2);
+                match b.read(&mut buf) {
+                    Ok(1) if buf[0] == k => {}
+                    r => engine::violation(&format!(
+                        "a fresh coroutine that was never cancelled and has no timeout: its first socket read returned {:?} instead of the byte sent to it (left-over of an earlier coroutine on the same pooled stack)",
+                        r
+                    )),
+                }
+            })
+        };
+        succ.push((a, h, ready, k));
+    }
+    for (mut a, h, ready, k) in succ {
+        wait_flag(&ready, usize::MAX);
+        dally(2);
+        a.write_all(&[k]).expect("write");
+        let o = OPS.begin(format!("join of fresh coroutine {}", k));
+        let r = h.join();
+        o.done();
+        if let Err(e) = r {
+            engine::violation(&format!("a fresh, never cancelled coroutine ended by a panic: {}", crate::panic_msg(&e)));
+        }
+    }
+}
